@@ -19,7 +19,7 @@ RULE = ("one run = one generated deterministic graph (zero-cost edges, self-loop
 REAL = ["msdm.algorithms.search (AStarSearch, BreadthFirstSearch, unmodified)", "msdm.core.mdp.deterministic_shortest_path.from_mdp",
         "QuickTabularMDP and the four single-outcome distribution representations"]
 STUB = ["graph spec behind msdm's model interface", "random.Random streams (SimRandom)", "Dijkstra / BFS / cost-to-go reference"]
-ASSUMPTIONS = ["graphs of 1-8 states with integer costs 0..3, and (20% of runs) 15-60 states, 4-6 actions, costs 0..9", "tie-break floats are pairwise distinct (a real generator repeats one with probability ~2^-53)"]
+ASSUMPTIONS = ["graphs of 1-8 states with integer costs 0..3, (20% of runs) 15-60 states, 4-6 actions, costs 0..9, and (0.3% of runs) corridors of 1050-1400 states", "tie-break floats are pairwise distinct (a real generator repeats one with probability ~2^-53)"]
 
 REPS = ('next_state', 'det', 'dict', 'uniform', 'dsp')
 HEUR = ('zero', 'exact', 'half', 'exact_inf')
@@ -30,7 +30,8 @@ def preload():
 
 
 def gen_case(rng, tier, idx):
-    spec = gen_graph_spec(rng, big=rng.random() < 0.2)
+    u = rng.random()
+    spec = gen_graph_spec(rng, big=u < 0.2, corridor=u > 0.997)
     tb = rng.choice(('lifo', 'fifo', 'random', 'random'))
     rao = rng.random() < 0.6
     cfg = dict(rep=rng.choice(REPS), heur=rng.choice(HEUR), tie=tb, rao=rao, seed=rng.choice((0, 1, 42, None)))
@@ -45,7 +46,7 @@ def execute(case, script=None):
     gv = GraphView(case['spec'])
     ctx = RunCtx(PROP, None)
     ctx.declare_probes('no_plan', 'start_is_goal', 'zero_cost_edge_on_path', 'two_goals_reachable', 'infinite_heuristic_seen',
-                       'self_loop_present', 'random_tie_break', 'shuffled_actions', 'big_graph')
+                       'self_loop_present', 'random_tie_break', 'shuffled_actions', 'big_graph', 'path_longer_than_1000_steps')
     sched = make_scheduler(case, script, ctx)
     try:
         return _execute(se, gv, case['cfg'], ctx, sched)
@@ -130,6 +131,8 @@ def _execute(se, gv, cfg, ctx, sched):
             cost += E[x, a][1]
             if E[x, a][1] == 0:
                 ctx.probe('zero_cost_edge_on_path')
+        if len(p) > 1000:
+            ctx.probe('path_longer_than_1000_steps')
         if alg == 'astar':
             ctx.check(cost == best, 'min-cost', lambda: f"astar: path {p} costs {cost}, optimum is {best}")
             ctx.check(r.path_value == cost, 'path-value', lambda: f"astar: reported path_value {r.path_value!r} != path cost {cost}")
